@@ -133,7 +133,7 @@ const (
 	probeWait    = 300 * time.Microsecond // a writer inside writeMu waits this long for a second writer to show up
 	settle       = 300 * time.Microsecond // after cancelling a call inside its dispatch, let the caller leave its select
 	fallbackTick = 3 * time.Millisecond   // no progress for this long: run the next batch from outside
-	hangTimeout  = 3 * time.Second
+	hangTimeout  = 8 * time.Second
 )
 
 type run struct {
